@@ -64,17 +64,21 @@ TStart == /\ (IsEvent("Dma") \/ IsEvent("DmaLong")) /\ phase # "run"
           /\ phase' = "run" /\ irq' = 0 /\ ticks' = 0 /\ p' = 1
           /\ Quiet /\ UNCHANGED <<ah, l, bad>>
 
+(* TLC re-evaluates a LET definition that sits directly in an action at every use; operator   *)
+(* arguments are evaluated once.  Hence the step bodies below are operators applied to the    *)
+(* result of TickOp.                                                                          *)
 Avail == Len(Rec.log) - p + 1
 TickVals(n) == [i \in 1..n |-> IF i <= Avail THEN LET e == Rec.log[p + i - 1] IN <<e[4], e[5]>> ELSE WZero]
+NextTick == TickOp(ch, ah, TickVals(Len(ReadReqs(ch, ah))))
 
+TickMatches(r, m) ==
+    /\ m <= Avail
+    /\ \A i \in 1..m : EvJ(Rec.log[p + i - 1]) = r.ev[i]
+    /\ ch' = r.ch /\ ah' = r.ah /\ p' = p + m
+    /\ bad' = bad + OobCount(r.ev)
+TickStep(r) == TickMatches(r, Len(r.ev))
 TTick == /\ IsEvent("Dma") /\ phase = "run" /\ ch.run # 0
-         /\ LET n == Len(ReadReqs(ch, ah))
-                r == TickOp(ch, ah, TickVals(n))
-                m == Len(r.ev)
-            IN  /\ m <= Avail
-                /\ \A i \in 1..m : EvJ(Rec.log[p + i - 1]) = r.ev[i]
-                /\ ch' = r.ch /\ ah' = r.ah /\ p' = p + m
-                /\ bad' = bad + OobCount(r.ev)
+         /\ TickStep(NextTick)
          /\ ticks' = ticks + 1
          /\ Quiet /\ UNCHANGED <<irq, phase, l>>
 
@@ -88,11 +92,10 @@ TFinish == /\ IsEvent("Dma") /\ phase = "run" /\ ch.run = 0
 
 \* the recorder's watchdog stopped a transfer that was still running: the logged events must be
 \* what the specification produces up to that point, the rest of the tick never happened
+CutMatches(r) == /\ Avail < Len(r.ev)
+                 /\ \A i \in 1..Avail : EvJ(Rec.log[p + i - 1]) = r.ev[i]
 TCut == /\ IsEvent("Dma") /\ phase = "run" /\ ch.run # 0 /\ Rec.out = "watchdog"
-        /\ LET n == Len(ReadReqs(ch, ah))
-               r == TickOp(ch, ah, TickVals(n))
-           IN  /\ Avail < Len(r.ev)
-               /\ \A i \in 1..Avail : EvJ(Rec.log[p + i - 1]) = r.ev[i]
+        /\ CutMatches(NextTick)
         /\ Rec.irq = 0
         /\ irq' = 0
         /\ Done("cut") /\ Quiet /\ UNCHANGED <<ch, ah, ticks, p, bad>>
@@ -100,17 +103,17 @@ TCut == /\ IsEvent("Dma") /\ phase = "run" /\ ch.run # 0 /\ Rec.out = "watchdog"
 \* ---- long transfers: accesses counted.  Up to Chunk elements per step (bounded recursion), so
 \* the invariants see every Chunk-th element of such a transfer and its end.
 Chunk == 32
+LongAfter(st, r) == [ch |-> r.ch, ah |-> r.ah, nev |-> st.nev + Len(r.ev),
+                     bad |-> st.bad + OobCount(r.ev), ticks |-> st.ticks + 1]
+LongTick1(st) ==      \* st = [ch, ah, nev, bad, ticks]
+    LongAfter(st, TickOp(st.ch, st.ah, [i \in 1..Len(ReadReqs(st.ch, st.ah)) |-> WZero]))
 RECURSIVE LongRun(_, _)
-LongRun(st, n) ==      \* st = [ch, ah, nev, bad, ticks]
-    IF n = 0 \/ st.ch.run = 0 \/ st.ticks >= Rec.nt THEN st
-    ELSE LET k == Len(ReadReqs(st.ch, st.ah))
-             r == TickOp(st.ch, st.ah, [i \in 1..k |-> WZero])
-         IN  LongRun([ch |-> r.ch, ah |-> r.ah, nev |-> st.nev + Len(r.ev),
-                      bad |-> st.bad + OobCount(r.ev), ticks |-> st.ticks + 1], n - 1)
+LongRun(st, n) ==
+    IF n = 0 \/ st.ch.run = 0 \/ st.ticks >= Rec.nt THEN st ELSE LongRun(LongTick1(st), n - 1)
+LongApply(st) == ch' = st.ch /\ ah' = st.ah /\ p' = st.nev /\ bad' = st.bad /\ ticks' = st.ticks
 
 TLongTick == /\ IsEvent("DmaLong") /\ phase = "run" /\ ch.run # 0 /\ ticks < Rec.nt
-             /\ LET st == LongRun([ch |-> ch, ah |-> ah, nev |-> p, bad |-> bad, ticks |-> ticks], Chunk)
-                IN  ch' = st.ch /\ ah' = st.ah /\ p' = st.nev /\ bad' = st.bad /\ ticks' = st.ticks
+             /\ LongApply(LongRun([ch |-> ch, ah |-> ah, nev |-> p, bad |-> bad, ticks |-> ticks], Chunk))
              /\ Quiet /\ UNCHANGED <<irq, phase, l>>
 
 TLongFinish == /\ IsEvent("DmaLong") /\ phase = "run" /\ ticks = Rec.nt
